@@ -1,0 +1,249 @@
+//go:build verif
+
+// Contracts checked by /verif/gvc — statistics (property C20). Comments only.
+// Integers are 64-bit bit-vectors here (mode bv): "+ 1" wraps exactly as the code does, and the
+// clauses that say a gauge does not wrap state it explicitly.
+
+package server
+
+//@ func (subscription.StatsReader).GetClientStats trusted pure
+//@ params self, clientID
+//@ func (subscription.StatsReader).GetStats trusted pure
+//@ params self
+
+//@ spec func mq(m *MessageStats, q uint8) *MessageQosStats = q == 0 ? m.Qos0 : (q == 1 ? m.Qos1 : m.Qos2)
+//@ spec func smOK(s *statsManager) bool = s != nil && s.totalStats != nil && s.clientStats != nil && s.subStatsReader != nil
+//@ spec func csZero(c *ClientStats) bool = msZero(c.MessageStats) && psZero(c.PacketStats)
+//@ spec func qZero(q *MessageQosStats) bool = q.ReceivedTotal == 0 && q.SentTotal == 0 && q.DroppedTotal.Internal == 0 && q.DroppedTotal.ExceedsMaxPacketSize == 0 && q.DroppedTotal.QueueFull == 0 && q.DroppedTotal.Expired == 0 && q.DroppedTotal.InflightExpired == 0
+//@ spec func msZero(m *MessageStats) bool = qZero(m.Qos0) && qZero(m.Qos1) && qZero(m.Qos2) && m.InflightCurrent == 0 && m.QueuedCurrent == 0
+//@ spec func pbZero(b *PacketBytes) bool = b.Auth == 0 && b.Connect == 0 && b.Connack == 0 && b.Disconnect == 0 && b.Pingreq == 0 && b.Pingresp == 0 && b.Puback == 0 && b.Pubcomp == 0 && b.Publish == 0 && b.Pubrec == 0 && b.Pubrel == 0 && b.Suback == 0 && b.Subscribe == 0 && b.Unsuback == 0 && b.Unsubscribe == 0 && b.Total == 0
+//@ spec func psZero(p *PacketStats) bool = pbZero(p.BytesReceived) && pbZero(p.ReceivedTotal) && pbZero(p.BytesSent) && pbZero(p.SentTotal)
+
+// getClientStats: find-or-create; other clients' entries untouched.
+//@ func (*statsManager).getClientStats mode bv
+//@ props C20
+//@ requires [C20] smOK(s)
+//@ modifies map(s.clientStats)
+//@ ensures [C20] stats != nil && s.clientStats[clientID] == stats
+//@ ensures [C20] old(s.clientStats[clientID]) != nil ==> stats == old(s.clientStats[clientID])
+//@ ensures [C20] old(s.clientStats[clientID]) == nil ==> isfresh(stats) && csZero(stats)
+//@ ensures [C20] forall k string :: k != clientID ==> s.clientStats[k] == old(s.clientStats[k]) && has(s.clientStats, k) == old(has(s.clientStats, k))
+
+//@ func (*statsManager).messageReceived mode bv
+//@ props C20
+//@ let c0 = s.clientStats[clientID]
+//@ witness qos = qos
+//@ witness hasclient = c0 != nil
+//@ requires [C20] smOK(s)
+//@ modifies map(s.clientStats), s.totalStats.MessageStats.Qos0.ReceivedTotal, s.totalStats.MessageStats.Qos1.ReceivedTotal, s.totalStats.MessageStats.Qos2.ReceivedTotal, c0.MessageStats.Qos0.ReceivedTotal, c0.MessageStats.Qos1.ReceivedTotal, c0.MessageStats.Qos2.ReceivedTotal
+//@ ensures [C20] qos <= 2 ==> mq(s.totalStats.MessageStats, qos).ReceivedTotal == old(mq(s.totalStats.MessageStats, qos).ReceivedTotal) + 1
+//@ ensures [C20] forall q uint8 :: q <= 2 && q != qos ==> mq(s.totalStats.MessageStats, q).ReceivedTotal == old(mq(s.totalStats.MessageStats, q).ReceivedTotal)
+//@ ensures [C20] qos <= 2 ==> s.clientStats[clientID] != nil
+//@ ensures [C20] qos <= 2 && c0 != nil ==> s.clientStats[clientID] == c0 && mq(c0.MessageStats, qos).ReceivedTotal == old(mq(c0.MessageStats, qos).ReceivedTotal) + 1
+//@ ensures [C20] qos <= 2 && c0 != nil ==> forall q uint8 :: q <= 2 && q != qos ==> mq(c0.MessageStats, q).ReceivedTotal == old(mq(c0.MessageStats, q).ReceivedTotal)
+//@ ensures [C20] qos <= 2 && c0 == nil ==> isfresh(s.clientStats[clientID]) && mq(s.clientStats[clientID].MessageStats, qos).ReceivedTotal == 1
+//@ ensures [C20] qos <= 2 && c0 == nil ==> forall q uint8 :: q <= 2 && q != qos ==> mq(s.clientStats[clientID].MessageStats, q).ReceivedTotal == 0
+//@ ensures [C20] qos > 2 ==> s.clientStats[clientID] == c0
+//@ ensures [C20] forall k string :: k != clientID ==> s.clientStats[k] == old(s.clientStats[k])
+
+//@ func (*statsManager).messageSent mode bv
+//@ props C20
+//@ let c0 = s.clientStats[clientID]
+//@ witness qos = qos
+//@ witness hasclient = c0 != nil
+//@ requires [C20] smOK(s)
+//@ modifies map(s.clientStats), s.totalStats.MessageStats.Qos0.SentTotal, s.totalStats.MessageStats.Qos1.SentTotal, s.totalStats.MessageStats.Qos2.SentTotal, c0.MessageStats.Qos0.SentTotal, c0.MessageStats.Qos1.SentTotal, c0.MessageStats.Qos2.SentTotal
+//@ ensures [C20] qos <= 2 ==> mq(s.totalStats.MessageStats, qos).SentTotal == old(mq(s.totalStats.MessageStats, qos).SentTotal) + 1
+//@ ensures [C20] forall q uint8 :: q <= 2 && q != qos ==> mq(s.totalStats.MessageStats, q).SentTotal == old(mq(s.totalStats.MessageStats, q).SentTotal)
+//@ ensures [C20] qos <= 2 ==> s.clientStats[clientID] != nil
+//@ ensures [C20] qos <= 2 && c0 != nil ==> s.clientStats[clientID] == c0 && mq(c0.MessageStats, qos).SentTotal == old(mq(c0.MessageStats, qos).SentTotal) + 1
+//@ ensures [C20] qos <= 2 && c0 != nil ==> forall q uint8 :: q <= 2 && q != qos ==> mq(c0.MessageStats, q).SentTotal == old(mq(c0.MessageStats, q).SentTotal)
+//@ ensures [C20] qos <= 2 && c0 == nil ==> isfresh(s.clientStats[clientID]) && mq(s.clientStats[clientID].MessageStats, qos).SentTotal == 1
+//@ ensures [C20] qos <= 2 && c0 == nil ==> forall q uint8 :: q <= 2 && q != qos ==> mq(s.clientStats[clientID].MessageStats, q).SentTotal == 0
+//@ ensures [C20] qos > 2 ==> s.clientStats[clientID] == c0
+//@ ensures [C20] forall k string :: k != clientID ==> s.clientStats[k] == old(s.clientStats[k])
+
+//@ func (*statsManager).addInflight mode bv
+//@ props C20
+//@ let c0 = s.clientStats[clientID]
+//@ witness delta = delta
+//@ witness hasclient = c0 != nil
+//@ witness cur = c0.MessageStats.InflightCurrent
+//@ witness gcur = s.totalStats.MessageStats.InflightCurrent
+//@ requires [C20] smOK(s)
+//@ modifies map(s.clientStats), s.totalStats.MessageStats.InflightCurrent, c0.MessageStats.InflightCurrent
+//@ ensures [C20] s.totalStats.MessageStats.InflightCurrent == old(s.totalStats.MessageStats.InflightCurrent) + delta
+//@ ensures [C20] c0 != nil ==> s.clientStats[clientID] == c0 && c0.MessageStats.InflightCurrent == old(c0.MessageStats.InflightCurrent) + delta
+//@ ensures [C20] c0 == nil ==> isfresh(s.clientStats[clientID]) && s.clientStats[clientID].MessageStats.InflightCurrent == delta
+//@ ensures [C20] forall k string :: k != clientID ==> s.clientStats[k] == old(s.clientStats[k])
+
+//@ func (*statsManager).addQueueLen mode bv
+//@ props C20
+//@ let c0 = s.clientStats[clientID]
+//@ witness delta = delta
+//@ witness hasclient = c0 != nil
+//@ witness cur = c0.MessageStats.QueuedCurrent
+//@ witness gcur = s.totalStats.MessageStats.QueuedCurrent
+//@ requires [C20] smOK(s)
+//@ modifies map(s.clientStats), s.totalStats.MessageStats.QueuedCurrent, c0.MessageStats.QueuedCurrent
+//@ ensures [C20] s.totalStats.MessageStats.QueuedCurrent == old(s.totalStats.MessageStats.QueuedCurrent) + delta
+//@ ensures [C20] c0 != nil ==> s.clientStats[clientID] == c0 && c0.MessageStats.QueuedCurrent == old(c0.MessageStats.QueuedCurrent) + delta
+//@ ensures [C20] c0 == nil ==> isfresh(s.clientStats[clientID]) && s.clientStats[clientID].MessageStats.QueuedCurrent == delta
+//@ ensures [C20] forall k string :: k != clientID ==> s.clientStats[k] == old(s.clientStats[k])
+
+//@ func (*statsManager).decInflight mode bv
+//@ props C20
+//@ let c0 = s.clientStats[clientID]
+//@ let cur = c0 != nil ? c0.MessageStats.InflightCurrent : 0
+//@ witness delta = delta
+//@ witness hasclient = c0 != nil
+//@ witness cur = cur
+//@ witness gcur = s.totalStats.MessageStats.InflightCurrent
+//@ requires [C20] smOK(s)
+//@ modifies map(s.clientStats), s.totalStats.MessageStats.InflightCurrent, c0.MessageStats.InflightCurrent
+//@ ensures [C20] c0 != nil ==> s.clientStats[clientID] == c0
+//@ ensures [C20] cur == 0 ==> s.totalStats.MessageStats.InflightCurrent == old(s.totalStats.MessageStats.InflightCurrent)
+//@ ensures [C20] cur != 0 ==> s.clientStats[clientID].MessageStats.InflightCurrent == cur - delta && s.totalStats.MessageStats.InflightCurrent == old(s.totalStats.MessageStats.InflightCurrent) - delta
+//@ ensures [C20] s.clientStats[clientID].MessageStats.InflightCurrent <= cur
+//@ ensures [C20] cur <= old(s.totalStats.MessageStats.InflightCurrent) ==> s.totalStats.MessageStats.InflightCurrent <= old(s.totalStats.MessageStats.InflightCurrent)
+//@ ensures [C20] forall k string :: k != clientID ==> s.clientStats[k] == old(s.clientStats[k])
+
+//@ func (*statsManager).decQueueLen mode bv
+//@ props C20
+//@ let c0 = s.clientStats[clientID]
+//@ let cur = c0 != nil ? c0.MessageStats.QueuedCurrent : 0
+//@ witness delta = delta
+//@ witness hasclient = c0 != nil
+//@ witness cur = cur
+//@ witness gcur = s.totalStats.MessageStats.QueuedCurrent
+//@ requires [C20] smOK(s)
+//@ modifies map(s.clientStats), s.totalStats.MessageStats.QueuedCurrent, c0.MessageStats.QueuedCurrent
+//@ ensures [C20] c0 != nil ==> s.clientStats[clientID] == c0
+//@ ensures [C20] cur == 0 ==> s.totalStats.MessageStats.QueuedCurrent == old(s.totalStats.MessageStats.QueuedCurrent)
+//@ ensures [C20] cur != 0 ==> s.clientStats[clientID].MessageStats.QueuedCurrent == cur - delta && s.totalStats.MessageStats.QueuedCurrent == old(s.totalStats.MessageStats.QueuedCurrent) - delta
+//@ ensures [C20] s.clientStats[clientID].MessageStats.QueuedCurrent <= cur
+//@ ensures [C20] cur <= old(s.totalStats.MessageStats.QueuedCurrent) ==> s.totalStats.MessageStats.QueuedCurrent <= old(s.totalStats.MessageStats.QueuedCurrent)
+//@ ensures [C20] forall k string :: k != clientID ==> s.clientStats[k] == old(s.clientStats[k])
+
+//@ func (*statsManager).clientConnected mode bv
+//@ props C20
+//@ requires [C20] smOK(s)
+//@ modifies s.totalStats.ConnectionStats.ConnectedTotal
+//@ ensures [C20] s.totalStats.ConnectionStats.ConnectedTotal == old(s.totalStats.ConnectionStats.ConnectedTotal) + 1
+
+//@ func (*statsManager).sessionInActive mode bv
+//@ props C20
+//@ requires [C20] smOK(s)
+//@ modifies s.totalStats.ConnectionStats.ActiveCurrent, s.totalStats.ConnectionStats.InactiveCurrent
+//@ ensures [C20] s.totalStats.ConnectionStats.ActiveCurrent == old(s.totalStats.ConnectionStats.ActiveCurrent) - 1
+//@ ensures [C20] s.totalStats.ConnectionStats.InactiveCurrent == old(s.totalStats.ConnectionStats.InactiveCurrent) + 1
+
+//@ func (*statsManager).clientDisconnected mode bv
+//@ props C20
+//@ requires [C20] smOK(s)
+//@ modifies s.totalStats.ConnectionStats.DisconnectedTotal, s.totalStats.ConnectionStats.ActiveCurrent, s.totalStats.ConnectionStats.InactiveCurrent
+//@ ensures [C20] s.totalStats.ConnectionStats.DisconnectedTotal == old(s.totalStats.ConnectionStats.DisconnectedTotal) + 1
+//@ ensures [C20] s.totalStats.ConnectionStats.ActiveCurrent == old(s.totalStats.ConnectionStats.ActiveCurrent) - 1
+//@ ensures [C20] s.totalStats.ConnectionStats.InactiveCurrent == old(s.totalStats.ConnectionStats.InactiveCurrent) + 1
+
+//@ func (*statsManager).sessionActive mode bv
+//@ props C20
+//@ requires [C20] smOK(s)
+//@ modifies s.totalStats.ConnectionStats.SessionCreatedTotal, s.totalStats.ConnectionStats.ActiveCurrent, s.totalStats.ConnectionStats.InactiveCurrent
+//@ ensures [C20] s.totalStats.ConnectionStats.ActiveCurrent == old(s.totalStats.ConnectionStats.ActiveCurrent) + 1
+//@ ensures [C20] create ==> s.totalStats.ConnectionStats.SessionCreatedTotal == old(s.totalStats.ConnectionStats.SessionCreatedTotal) + 1 && s.totalStats.ConnectionStats.InactiveCurrent == old(s.totalStats.ConnectionStats.InactiveCurrent)
+//@ ensures [C20] !create ==> s.totalStats.ConnectionStats.InactiveCurrent == old(s.totalStats.ConnectionStats.InactiveCurrent) - 1 && s.totalStats.ConnectionStats.SessionCreatedTotal == old(s.totalStats.ConnectionStats.SessionCreatedTotal)
+
+// sessionTerminated: the terminated session's gauges leave the global gauges with it.
+//@ func (*statsManager).sessionTerminated mode bv
+//@ props C20
+//@ let c0 = s.clientStats[clientID]
+//@ witness hasclient = c0 != nil
+//@ witness cq = c0.MessageStats.QueuedCurrent
+//@ witness ci = c0.MessageStats.InflightCurrent
+//@ witness gq = s.totalStats.MessageStats.QueuedCurrent
+//@ witness gi = s.totalStats.MessageStats.InflightCurrent
+//@ requires [C20] smOK(s)
+//@ requires [C20] reason == NormalTermination || reason == ExpiredTermination || reason == TakenOverTermination
+//@ modifies map(s.clientStats), s.totalStats.ConnectionStats.SessionTerminated.Normal, s.totalStats.ConnectionStats.SessionTerminated.Expired, s.totalStats.ConnectionStats.SessionTerminated.TakenOver, s.totalStats.ConnectionStats.InactiveCurrent, s.totalStats.MessageStats.QueuedCurrent, s.totalStats.MessageStats.InflightCurrent
+//@ ensures [C20] !has(s.clientStats, clientID)
+//@ ensures [C20] forall k string :: k != clientID ==> s.clientStats[k] == old(s.clientStats[k]) && has(s.clientStats, k) == old(has(s.clientStats, k))
+//@ ensures [C20] s.totalStats.ConnectionStats.InactiveCurrent == old(s.totalStats.ConnectionStats.InactiveCurrent) - 1
+//@ ensures [C20] s.totalStats.ConnectionStats.SessionTerminated.Normal == old(s.totalStats.ConnectionStats.SessionTerminated.Normal) + (reason == NormalTermination ? 1 : 0)
+//@ ensures [C20] s.totalStats.ConnectionStats.SessionTerminated.Expired == old(s.totalStats.ConnectionStats.SessionTerminated.Expired) + (reason == ExpiredTermination ? 1 : 0)
+//@ ensures [C20] s.totalStats.ConnectionStats.SessionTerminated.TakenOver == old(s.totalStats.ConnectionStats.SessionTerminated.TakenOver) + (reason == TakenOverTermination ? 1 : 0)
+//@ ensures [C20] c0 != nil ==> s.totalStats.MessageStats.QueuedCurrent == old(s.totalStats.MessageStats.QueuedCurrent) - old(c0.MessageStats.QueuedCurrent)
+//@ ensures [C20] c0 != nil ==> s.totalStats.MessageStats.InflightCurrent == old(s.totalStats.MessageStats.InflightCurrent) - old(c0.MessageStats.InflightCurrent)
+
+//@ func (*DroppedTotal).messageDropped mode bv
+//@ props C20
+//@ requires [C20] d != nil
+//@ modifies d.Internal, d.ExceedsMaxPacketSize, d.QueueFull, d.Expired, d.InflightExpired
+//@ ensures [C20] d.ExceedsMaxPacketSize == old(d.ExceedsMaxPacketSize) + (err == queue.ErrDropExceedsMaxPacketSize ? 1 : 0)
+//@ ensures [C20] d.QueueFull == old(d.QueueFull) + (err == queue.ErrDropQueueFull ? 1 : 0)
+//@ ensures [C20] d.Expired == old(d.Expired) + (err == queue.ErrDropExpired ? 1 : 0)
+//@ ensures [C20] d.InflightExpired == old(d.InflightExpired) + (err == queue.ErrDropExpiredInflight ? 1 : 0)
+//@ ensures [C20] d.Internal == old(d.Internal) + ((err != queue.ErrDropExceedsMaxPacketSize && err != queue.ErrDropQueueFull && err != queue.ErrDropExpired && err != queue.ErrDropExpiredInflight) ? 1 : 0)
+
+//@ func (*PacketBytes).copy mode bv
+//@ props C20
+//@ witness auth = p.Auth
+//@ requires [C20] p != nil
+//@ ensures [C20] result.Auth == p.Auth
+//@ ensures [C20] result.Connect == p.Connect
+//@ ensures [C20] result.Connack == p.Connack
+//@ ensures [C20] result.Disconnect == p.Disconnect
+//@ ensures [C20] result.Pingreq == p.Pingreq
+//@ ensures [C20] result.Pingresp == p.Pingresp
+//@ ensures [C20] result.Puback == p.Puback
+//@ ensures [C20] result.Pubcomp == p.Pubcomp
+//@ ensures [C20] result.Publish == p.Publish
+//@ ensures [C20] result.Pubrec == p.Pubrec
+//@ ensures [C20] result.Pubrel == p.Pubrel
+//@ ensures [C20] result.Suback == p.Suback
+//@ ensures [C20] result.Subscribe == p.Subscribe
+//@ ensures [C20] result.Unsuback == p.Unsuback
+//@ ensures [C20] result.Unsubscribe == p.Unsubscribe
+//@ ensures [C20] result.Total == p.Total
+
+//@ func (*ConnectionStats).copy mode bv
+//@ props C20
+//@ requires [C20] c != nil
+//@ ensures [C20] result != nil && isfresh(result)
+//@ ensures [C20] result.ConnectedTotal == c.ConnectedTotal
+//@ ensures [C20] result.DisconnectedTotal == c.DisconnectedTotal
+//@ ensures [C20] result.SessionCreatedTotal == c.SessionCreatedTotal
+//@ ensures [C20] result.SessionTerminated.TakenOver == c.SessionTerminated.TakenOver
+//@ ensures [C20] result.SessionTerminated.Expired == c.SessionTerminated.Expired
+//@ ensures [C20] result.SessionTerminated.Normal == c.SessionTerminated.Normal
+//@ ensures [C20] result.ActiveCurrent == c.ActiveCurrent
+//@ ensures [C20] result.InactiveCurrent == c.InactiveCurrent
+
+//@ func (*MessageStats).copy mode bv
+//@ props C20
+//@ requires [C20] m != nil
+//@ ensures [C20] result != nil && isfresh(result)
+//@ ensures [C20] result.Qos0.ReceivedTotal == m.Qos0.ReceivedTotal
+//@ ensures [C20] result.Qos0.SentTotal == m.Qos0.SentTotal
+//@ ensures [C20] result.Qos0.DroppedTotal.Internal == m.Qos0.DroppedTotal.Internal
+//@ ensures [C20] result.Qos0.DroppedTotal.ExceedsMaxPacketSize == m.Qos0.DroppedTotal.ExceedsMaxPacketSize
+//@ ensures [C20] result.Qos0.DroppedTotal.QueueFull == m.Qos0.DroppedTotal.QueueFull
+//@ ensures [C20] result.Qos0.DroppedTotal.Expired == m.Qos0.DroppedTotal.Expired
+//@ ensures [C20] result.Qos0.DroppedTotal.InflightExpired == m.Qos0.DroppedTotal.InflightExpired
+//@ ensures [C20] result.Qos1.ReceivedTotal == m.Qos1.ReceivedTotal
+//@ ensures [C20] result.Qos1.SentTotal == m.Qos1.SentTotal
+//@ ensures [C20] result.Qos1.DroppedTotal.Internal == m.Qos1.DroppedTotal.Internal
+//@ ensures [C20] result.Qos1.DroppedTotal.ExceedsMaxPacketSize == m.Qos1.DroppedTotal.ExceedsMaxPacketSize
+//@ ensures [C20] result.Qos1.DroppedTotal.QueueFull == m.Qos1.DroppedTotal.QueueFull
+//@ ensures [C20] result.Qos1.DroppedTotal.Expired == m.Qos1.DroppedTotal.Expired
+//@ ensures [C20] result.Qos1.DroppedTotal.InflightExpired == m.Qos1.DroppedTotal.InflightExpired
+//@ ensures [C20] result.Qos2.ReceivedTotal == m.Qos2.ReceivedTotal
+//@ ensures [C20] result.Qos2.SentTotal == m.Qos2.SentTotal
+//@ ensures [C20] result.Qos2.DroppedTotal.Internal == m.Qos2.DroppedTotal.Internal
+//@ ensures [C20] result.Qos2.DroppedTotal.ExceedsMaxPacketSize == m.Qos2.DroppedTotal.ExceedsMaxPacketSize
+//@ ensures [C20] result.Qos2.DroppedTotal.QueueFull == m.Qos2.DroppedTotal.QueueFull
+//@ ensures [C20] result.Qos2.DroppedTotal.Expired == m.Qos2.DroppedTotal.Expired
+//@ ensures [C20] result.Qos2.DroppedTotal.InflightExpired == m.Qos2.DroppedTotal.InflightExpired
+//@ ensures [C20] result.InflightCurrent == m.InflightCurrent
+//@ ensures [C20] result.QueuedCurrent == m.QueuedCurrent
+
